@@ -1,6 +1,91 @@
-From LC Require Import LastStateProof.
+(* C01 — Trusted chain state changes only on a fully verified last-state proof.
+   Model: Model/Matching.v (check_if_response_is_matched) and Model/LastStateProof.v
+   (SendLastStateProofProcess::execute + commit_prove_state).  PoW validity, chain-root
+   commitment (patched_is_valid) and the MMR verdict are oracle inputs of the model: the
+   theorems say that the trusted view changes only if ALL of them came out positive for the
+   right arguments; that the underlying primitives are sound (blake2b, Eaglesong, MMR) is the
+   trusted base.  Routes 2 (copy from another peer) and 3 (child fast path) are C11/C12. *)
+From Coq Require Import NArith List Bool Sorted.
+From LC Require Import Matching LastStateProof MatchingProofs LastStateProofProofs.
+Import ListNotations.
 Open Scope N_scope.
-Theorem C01_placeholder : forall last_n tau st m pe hs mmr r rg,
-  execute last_n tau PNone st m pe hs mmr r rg = Ok (unchanged E_PEER_NOT_FOUND None None st).
+
+(* the peer's prove state or the stored (total difficulty, tip, last-N, matched records) changes
+   only if a request for this very last header is outstanding and every gate passed *)
+Theorem C01_gate :
+  forall last_n tau peer st msg_last proof_empty hs mmr rb rg e,
+    execute last_n tau peer st msg_last proof_empty hs mmr rb rg = Ok e ->
+    forall ps0, (match peer with PNone => None | PNoRequest p => p | PRequested p _ => p end) = ps0 ->
+    trusted_changed ps0 st e ->
+    exists ps rq r s l lasts st' rbk,
+      peer = PRequested ps rq /\
+      same_vheader (pr_last rq) msg_last = Ok true /\
+      gates last_n tau ps rq msg_last hs mmr r s l false /\
+      assemble last_n ps hs r s l = Ok (Some lasts) /\
+      commit st (mkPS (pr_last rq) (map key_of (firstn (N.to_nat r) hs)) lasts) = Ok (true, st', rbk) /\
+      e = mkEff C_OK (Some (mkPS (pr_last rq) (map key_of (firstn (N.to_nat r) hs)) lasts)) None false false st' rbk.
+Proof. exact execute_gate. Qed.
+Print Assumptions C01_gate.
+
+(* a rejected response (any status other than OK / RequireRecheck) leaves the prove state, the
+   outstanding request, the last state and the whole store exactly as they were *)
+Theorem C01_reject_frame :
+  forall last_n tau ps rq st msg_last proof_empty hs mmr rb rg e,
+    execute last_n tau (PRequested ps rq) st msg_last proof_empty hs mmr rb rg = Ok e ->
+    ef_code e <> C_OK -> ef_code e <> C_RECHECK ->
+    e = unchanged (ef_code e) ps (Some rq) st.
+Proof. exact execute_reject_frame. Qed.
+Print Assumptions C01_reject_frame.
+
+(* every possible outcome of the handler while a request is outstanding *)
+Theorem C01_outcomes :
+  forall last_n tau ps rq st msg_last proof_empty hs mmr rb rg e,
+    execute last_n tau (PRequested ps rq) st msg_last proof_empty hs mmr rb rg = Ok e ->
+    outcome last_n tau ps rq st msg_last proof_empty hs mmr e.
+Proof. exact execute_outcome. Qed.
+Print Assumptions C01_outcomes.
+
+(* without an outstanding request nothing changes, whatever the message *)
+Theorem C01_unsolicited_noop :
+  forall last_n tau ps st msg_last proof_empty hs mmr rb rg,
+    execute last_n tau (PNoRequest ps) st msg_last proof_empty hs mmr rb rg = Ok (unchanged C_OK ps None st).
 Proof. reflexivity. Qed.
-Print Assumptions C01_placeholder.
+Print Assumptions C01_unsolicited_noop.
+
+(* the sections of an accepted response have exactly the requested shape *)
+Theorem C01_shape :
+  forall last_n start boundary ds hs last_number r s l,
+    matched last_n start boundary ds hs last_number = Ok (r, s, l) ->
+    shape last_n start boundary ds hs last_number r s l.
+Proof. exact matched_shape. Qed.
+Print Assumptions C01_shape.
+
+(* ... and every sampled header covers a requested difficulty; with a sorted request (C15)
+   every consumed difficulty is covered by a sampled header *)
+Theorem C01_samples_cover :
+  forall hs ds rest,
+    check_samples hs ds = Ok rest ->
+    exists used, ds = used ++ rest /\
+      (forall h, In h hs -> exists d, In d used /\ covers h d) /\
+      (StronglySorted N.le ds -> forall d, In d used -> exists h, In h hs /\ covers h d).
+Proof. exact check_samples_spec. Qed.
+Print Assumptions C01_samples_cover.
+
+(* the store moves only to the requested last header and only if it is strictly heavier *)
+Theorem C01_commit_store :
+  forall st new_ps st' rb,
+    commit st new_ps = Ok (true, st', rb) ->
+    st' = st \/
+    (exists ntd, vtd (ps_last new_ps) = Ok ntd /\ st_td st < ntd /\
+       st_td st' = ntd /\ st_tip st' = key_of (ps_last new_ps) /\ st_lastn st' = ps_lasts new_ps).
+Proof. exact commit_store. Qed.
+Print Assumptions C01_commit_store.
+
+(* non-vacuity: an accepted two-header answer (start #5, last #7, last-N 2, no samples) *)
+Example C01_example_commit :
+  let h n id parent := mkVH id id n (n * 10) 10 1 (mkEpoch 0 n 100) parent true true in
+  let rq := mkPR (h 7 107 106) 5 0 [] false false in
+  exists e, execute 2 2 (PRequested None rq) (mkStore 10 (0, 100) [] []) (h 7 107 106) false
+                    [h 5 105 104; h 6 106 105] 0 true true = Ok e
+            /\ ef_code e = C_OK /\ st_tip (ef_store e) = (7, 107) /\ st_td (ef_store e) = 80.
+Proof. eexists. split; [vm_compute; reflexivity | repeat split]. Qed.
